@@ -64,13 +64,13 @@ def generate(ctx):
     seen = set()
     pts, creds, seqs, prios, alias, uniq = [], [], [], [], [], []
     for v in m.printed:
-        if not isinstance(v, dict) or v.get("kind") not in ("P", "C", "S", "Q", "A", "U"):
+        if not isinstance(v, dict) or v.get("kind") not in ("P", "C", "S", "Q", "A", "U", "X", "XC"):
             continue
         k = json.dumps(v, sort_keys=True)
         if k in seen:
             continue
         seen.add(k)
-        {"P": pts, "C": creds, "S": seqs, "Q": prios, "A": alias, "U": uniq}[v["kind"]].append(v)
+        {"P": pts, "C": creds, "S": seqs, "Q": prios, "A": alias, "U": uniq, "X": prios, "XC": prios}[v["kind"]].append(v)
     for lst in (pts, creds, seqs, prios, alias, uniq):
         lst.sort(key=lambda r: json.dumps(r, sort_keys=True))
     rnd = random.Random(ctx.seed)
@@ -191,6 +191,8 @@ def run(ctx):
         "target = VRF output / (2^256 - 1) as the code computes it; the difference to / 2^256 is far below the tolerance",
         "VRF uniqueness/unforgeability and keccak are trusted; per-seat hash = keccak(output || i) with i in minimal big-endian bytes",
         "priority over seats 0..j (j + 1 hashes), a priority credential with j = 0 is accepted (DESIGN section 9, interpretation note)",
+        "priority argmax stage: seat indices 0, 1, 255, 256, 257, 511, 512, 513, 768, 1024 as the seat with the largest hash (searched outputs, "
+        "1100 and 600 seats) and real credentials with the maximum on a multiple of 256; an argmax >= 65536 is out of reach of a search",
         "OutputUniquePerKeyMessage: the driver acts as a malicious key holder with a transcription of Evaluate; malleations tried: the prefix "
         "byte of the VRF point (0x00 0x01 0x02 0x03 0x05 0x06 0x07 0x44 0x84 0xff, challenge recomputed), the other y (control), s + N / t + N "
         "when they fit 32 bytes (practically never), and on the honest proof: flipped prefix, extra byte, truncation",
